@@ -137,9 +137,6 @@ func (v *Vue) evalTemplate(ctx VueContext, nodes []*html.Node, componentData map
 				if isFuncCallError(err) {
 					return nil, fmt.Errorf("in binding %s=\"%s\": %w", key, val, err)
 				}
-				if isFuncCallError(err) {
-					return nil, fmt.Errorf("in binding %s=\"%s\": %w", key, val, err)
-				}
 
 				// Fall back to expression evaluator for literals and arithmetic expressions
 				result, err = v.exprEval.Eval(val, v.exprEnv(ctx, val))
@@ -167,6 +164,9 @@ func (v *Vue) evalTemplate(ctx VueContext, nodes []*html.Node, componentData map
 				if err == nil {
 					ctx.stack.Set(boundName, result)
 					continue
+				}
+				if isFuncCallError(err) {
+					return nil, fmt.Errorf("in binding %s=\"%s\": %w", key, val, err)
 				}
 				result, err = v.exprEval.Eval(val, v.exprEnv(ctx, val))
 				if err == nil {
